@@ -8,14 +8,15 @@ use syn::Ident;
 use crate::wgsl::vertex_entry_structs;
 
 pub fn fragment_target_count(module: &Module, f: &Function) -> usize {
+    // The color targets are indexed by location,
+    // so the highest location determines the number of targets.
     match &f.result {
         Some(r) => match &r.binding {
             Some(b) => {
                 // Builtins don't have render targets.
-                if matches!(b, naga::Binding::Location { .. }) {
-                    1
-                } else {
-                    0
+                match b {
+                    naga::Binding::Location { location, .. } => *location as usize + 1,
+                    naga::Binding::BuiltIn(_) => 0,
                 }
             }
             None => {
@@ -23,8 +24,14 @@ pub fn fragment_target_count(module: &Module, f: &Function) -> usize {
                 match &module.types[r.ty].inner {
                     naga::TypeInner::Struct { members, .. } => members
                         .iter()
-                        .filter(|m| matches!(m.binding, Some(naga::Binding::Location { .. })))
-                        .count(),
+                        .filter_map(|m| match m.binding {
+                            Some(naga::Binding::Location { location, .. }) => {
+                                Some(location as usize + 1)
+                            }
+                            _ => None,
+                        })
+                        .max()
+                        .unwrap_or(0),
                     _ => 0,
                 }
             }
